@@ -551,8 +551,31 @@ def check_exp_golomb_agreement(ctx, F):
                 ok = False
         if ok:
             feasible += 1
+    # the counter may also be compared with the number of bits inside the counting loop only (on the stepped counter)
+    ev_d0 = rules.evaluate(dec[0])[0]
+    loop_counters = set()
+    for r in dp:
+        if r.end != 'backedge':
+            continue
+        les = [e for e in r.events if e['kind'] == 'loop_enter']
+        if not les:
+            continue
+        for path in les[-1]['pre']:
+            if not (len(path) == 1 and isinstance(path[0], int)):
+                continue
+            me = ('loop', les[-1]['head'], path)
+            fin = ev_d0.final_read(r, path)
+            if isinstance(fin, tuple) and fin and fin[0] == 'bin' and fin[1].split('.')[0] == 'Add' and me in (fin[2], fin[3]) and sym.mk_int(1) in (fin[2], fin[3]):
+                for t, v, _ in r.preds:
+                    if t[0] == 'bin' and t[1] in ('Lt', 'Le', 'Gt', 'Ge', 'Eq', 'Ne') and ((_is_bits_of_n(t[2]) and t[3] in (me, fin)) or (_is_bits_of_n(t[3]) and t[2] in (me, fin))):
+                        loop_counters.add(me)
+    in_loop_only = not counters and len(loop_counters) == 1
+    if in_loop_only:
+        counters = set(loop_counters)
     if not writer_max:
         ctx.unresolved('R4', roleA, enc[0].defpath, 'the writer\'s run of `bits of the type` zeros was not recognised', key=keyA)
+    elif in_loop_only:
+        ctx.ok('R4', roleA, dec[0].defpath, 'the count is compared with the bits of the type inside the counting loop only; whether a run of exactly that many zeros may go on is decided by the counter rule', key=keyA)
     elif unknown:
         ctx.unresolved('R4', roleA, dec[0].defpath, unknown, key=keyA)
     elif not counters:
@@ -565,6 +588,57 @@ def check_exp_golomb_agreement(ctx, F):
         ctx.unresolved('R4', roleB, dec[0].defpath, 'zero counter not identified', key=keyB)
         return
     L = next(iter(counters))
+    # (C) the counter is bounded inside the counting loop: an iteration that goes on has decided `count <= bits of the type`
+    # on the stepped counter.  Without that the u32 counter wraps after 2^32 zero bits (a panic in debug builds; a release
+    # build then takes the run for a short one and accepts an invalid code word), and an invalid stream is read to its end.
+    keyC = 'R4/exp-golomb-counter-bounded/' + EG
+    roleC = 'the zero counter is bounded inside the counting loop (and a run of exactly `bits of the type` zeros may go on)'
+    ev_d = rules.evaluate(dec[0])[0]
+    n_back = 0
+    verdict = None
+    for r in dp:
+        if r.end != 'backedge':
+            continue
+        les = [e for e in r.events if e['kind'] == 'loop_enter']
+        if not les or les[-1]['head'] != L[1]:
+            continue
+        fin = ev_d.final_read(r, tuple(L[2]))
+        stepped = isinstance(fin, tuple) and fin and fin[0] == 'bin' and fin[1].split('.')[0] == 'Add' and L in (fin[2], fin[3])
+        if not stepped:
+            continue
+        n_back += 1
+        bounded = False
+        admits = True
+        for t, v, _ in r.preds:
+            if isinstance(v, tuple) or t[0] != 'bin' or t[1] not in ('Lt', 'Le', 'Gt', 'Ge', 'Eq', 'Ne'):
+                continue
+            a, b_ = t[2], t[3]
+            is_cnt = lambda u: u == L or u == fin
+            if _is_bits_of_n(a) and is_cnt(b_):
+                op, cnt = t[1], b_
+            elif _is_bits_of_n(b_) and is_cnt(a):
+                op, cnt = {'Lt': 'Gt', 'Le': 'Ge', 'Gt': 'Lt', 'Ge': 'Le'}.get(t[1], t[1]), a
+            else:
+                continue
+            # `K op cnt` decided as v.  Does it bound cnt from above, and is it consistent with stepped counter == K?
+            if not v:
+                op = {'Lt': 'Ge', 'Le': 'Gt', 'Gt': 'Le', 'Ge': 'Lt', 'Eq': 'Ne', 'Ne': 'Eq'}[op]
+            if op in ('Ge', 'Gt', 'Eq'):          # K >= cnt, K > cnt, K == cnt
+                bounded = True
+            # with the stepped counter equal to K: cnt == fin means cnt == K; cnt == L means cnt == K - 1
+            at_k = {'Ge': True, 'Gt': cnt == L, 'Eq': cnt == fin, 'Le': cnt == fin, 'Lt': False, 'Ne': cnt == L}[op]
+            if not at_k:
+                admits = False
+        if not bounded:
+            verdict = ('bad', 'an iteration of the counting loop steps the counter and goes on without any decision that bounds it by the bits of the type: after 2^32 zero bits the u32 counter wraps (debug builds panic, release builds take the run for a short one and accept an invalid code word)')
+        elif not admits and verdict is None:
+            verdict = ('bad', 'the counting loop refuses to go on when the stepped counter equals the bits of the type: the code word of the maximum, which starts with exactly that many zeros, is refused')
+    if n_back == 0:
+        ctx.unresolved('R4', roleC, dec[0].defpath, 'no iteration of the counting loop steps the counter', key=keyC)
+    elif verdict:
+        ctx.bad('R4', roleC, dec[0].defpath, verdict[1], key=keyC, loc=rules.loc(dec[0]))
+    else:
+        ctx.ok('R4', roleC, dec[0].defpath, '%d continuing iteration(s), each with `stepped count <= bits of the type` decided' % n_back, key=keyC)
     for r in oks:
         reads_tail = False
         for e in r.events:
